@@ -34,6 +34,7 @@ Don't use this for: problems that aren't min-cost flow shaped (use solve_lp),
 or tiny problems where config overhead isn't worth it (use min_cost_flow).
 """
 
+from solvor import _verif
 from solvor.types import Result, Status
 
 __all__ = ["network_simplex"]
@@ -187,6 +188,9 @@ def network_simplex(
                 leaving = arc
                 leaving_first = False
             node = parent[node]
+
+        if _verif.ENABLED:  # pragma: no cover
+            _verif.emit("ns_pivot", entering=entering, leaving=leaving, from_upper=rc >= 0, delta=delta, first=first, second=second, join=join)
 
         # Degenerate pivot: flip state without changing flow
         if delta == 0 and leaving == entering:
